@@ -1,5 +1,7 @@
 package graphql
 
+import "sort"
+
 type SchemaConfig struct {
 	Query        *Object
 	Mutation     *Object
@@ -107,21 +109,7 @@ func NewSchema(config SchemaConfig) (Schema, error) {
 	schema.typeMap = typeMap
 
 	// Keep track of all implementations by interface name.
-	if schema.implementations == nil {
-		schema.implementations = map[string][]*Object{}
-	}
-	for _, ttype := range schema.typeMap {
-		if ttype, ok := ttype.(*Object); ok {
-			for _, iface := range ttype.Interfaces() {
-				impls, ok := schema.implementations[iface.Name()]
-				if impls == nil || !ok {
-					impls = []*Object{}
-				}
-				impls = append(impls, ttype)
-				schema.implementations[iface.Name()] = impls
-			}
-		}
-	}
+	schema.implementations = implementationsOf(schema.typeMap)
 
 	// Enforce correct interface implementations
 	for _, ttype := range schema.typeMap {
@@ -143,26 +131,35 @@ func NewSchema(config SchemaConfig) (Schema, error) {
 	return schema, nil
 }
 
+// implementationsOf lists, per interface name, the object types of typeMap
+// that declare the interface: each once, in type-name order (the type map is
+// a Go map; its iteration order must not show in possibleTypes).
+func implementationsOf(typeMap TypeMap) map[string][]*Object {
+	names := make([]string, 0, len(typeMap))
+	for name := range typeMap {
+		names = append(names, name)
+	}
+	sort.Strings(names)
+	implementations := map[string][]*Object{}
+	for _, name := range names {
+		if ttype, ok := typeMap[name].(*Object); ok {
+			for _, iface := range ttype.Interfaces() {
+				implementations[iface.Name()] = append(implementations[iface.Name()], ttype)
+			}
+		}
+	}
+	return implementations
+}
+
 //Added Check implementation of interfaces at runtime..
 //Add Implementations at Runtime..
 func (gq *Schema) AddImplementation() error {
 
-	// Keep track of all implementations by interface name.
-	if gq.implementations == nil {
-		gq.implementations = map[string][]*Object{}
-	}
-	for _, ttype := range gq.typeMap {
-		if ttype, ok := ttype.(*Object); ok {
-			for _, iface := range ttype.Interfaces() {
-				impls, ok := gq.implementations[iface.Name()]
-				if impls == nil || !ok {
-					impls = []*Object{}
-				}
-				impls = append(impls, ttype)
-				gq.implementations[iface.Name()] = impls
-			}
-		}
-	}
+	// Rebuild the implementation table from the type map: appending to the
+	// existing table would list every known implementer once more, and the
+	// possible-type lookup derived from it would be stale.
+	gq.implementations = implementationsOf(gq.typeMap)
+	gq.possibleTypeMap = nil
 
 	// Enforce correct interface implementations
 	for _, ttype := range gq.typeMap {
